@@ -53,7 +53,9 @@ class _TransactionBase:
             if transaction_item.new is None:
                 # a deleted (context) state: it is removed from mdib, but this cannot be communicated via notification
                 continue
-            table.add_object_no_lock(transaction_item.new)
+            # The mdib gets a private copy: the application still holds the object that it got from the transaction,
+            # writing to that object after the commit must not change the mdib.
+            table.add_object_no_lock(transaction_item.new.mk_copy(copy_node=False))
             updates_list.append(transaction_item.new.mk_copy(copy_node=False))
         return updates_list
 
